@@ -404,6 +404,17 @@ PINNED_REAL = [
          scale=15.686647441593863, lin=True, step=1.0, sma0=10.471944078468393, gsma=10.471944078468393,
          minsma=4.0, maxsma=22.857142857142858, maxrit=None, integr='nearest_neighbor', lin_arg=True,
          fixes=(False, True, True), g=(44.09966729093242, 37.54024950563301, 0.0, 0.4)),
+    # fixes/C20-4: fix_pa=True, but at sma 0.5-0.6 the fitted eps changes sign and the fixed PA is rotated
+    dict(ny=64, nx=64, x0=30.0, y0=32.0, eps=0.2, pa=1.5707963267948966, law='sersic4',
+         scale=10.337294864970845, lin=False, step=0.1, sma0=8.0, gsma=8.0, minsma=0.0, maxsma=None,
+         maxrit=None, integr='bilinear', lin_arg=True, fixes=(True, True, False),
+         g=(30.0, 32.0, 1.5707963267948966, 0.2836444526282703)),
+    # fixes/C20-5: PA = 0: the fitted angles jump between 0 and pi, build_ellipse_model interpolates them
+    dict(ny=72, nx=64, x0=31.210348406647505, y0=32.85728302887482, eps=0.5, pa=0.0, law='gauss',
+         scale=14.075634265630157, lin=False, step=0.1, sma0=5.237991388358552, gsma=5.237991388358552,
+         minsma=2.0, maxsma=20.571428571428573, maxrit=None, integr='bilinear', lin_arg=True,
+         fixes=(False, False, False), g=(30.79795173528395, 33.375465652199914, 0.13683576609473797,
+                                         0.4151169456851164)),
 ]
 
 
@@ -413,7 +424,9 @@ MODEL_P90_TOL = 0.10
 
 def model_residual(p, obs):
     """|build_ellipse_model - image| / image on the pixels well inside the fitted region (elliptical
-    radius between 5 pixels and 0.8 x the largest fitted sma, at most 3 scale radii, model filled)."""
+    radius between max(5 pixels, smallest fitted sma + 1) and 0.8 x the largest fitted sma, at most 3 scale
+    radii, model filled,
+    profile resolved by the pixel grid)."""
     from photutils.isophote import build_ellipse_model
     with warnings.catch_warnings():
         warnings.simplefilter('ignore')
@@ -425,8 +438,14 @@ def model_residual(p, obs):
     yr = -dx * math.sin(p['pa']) + dy * math.cos(p['pa'])
     r = np.sqrt(xr ** 2 + (yr / (1 - p['eps'])) ** 2)
     smas = [s for s, _, _ in obs['isos']]
-    inside = (r > 5) & (r < 0.8 * min(max(smas), 3 * p['scale'])) & (model != 0)
-    if inside.sum() == 0:
+    inside = (r > max(5.0, min(smas) + 1.0)) & (r < 0.8 * min(max(smas), 3 * p['scale'])) & (model != 0)
+    # well-sampled pixels only (same rule as for the isophotes): logarithmic slope along the minor axis
+    # at most 0.5 per pixel
+    f = radial(p['law'], p['scale'])
+    rr = np.maximum(r, 1.0)
+    slope = np.abs(np.log(f(rr * 1.01)) - np.log(f(rr))) / (0.01 * rr) / (1.0 - p['eps'])
+    inside &= slope <= 0.5
+    if inside.sum() < 50:
         return None
     return np.abs(model[inside] - img[inside]) / img[inside]
 
@@ -633,7 +652,7 @@ def run(ctx):
         'inward step, maxsma None/0/at sma0/above, maxrit, sma0 None/0, all-fixed); real: noise-free '
         'Sersic(n=1,2,4)/Gaussian galaxies (eps 0.05-0.8, any PA, off-centre), all integration modes, fix_* '
         'flags, with the real fitter recorded; polar: exact-lattice centres and points (centre, axes, '
-        'quadrants, negative/large PA); three pinned real inputs (one per repaired defect) run first; '
+        'quadrants, negative/large PA); five pinned real inputs (one per repaired defect) run first; '
         'non-trivial = at least one fit call; distinct = distinct parameters')
     ctx.assumptions += [
         'EllipseFitter.fit (harmonic least squares, gradients, convergence tests) is NOT modelled: it is the '
@@ -651,7 +670,8 @@ def run(ctx):
         'pow(x,2) vs x*x differ by rounding in CPython/numpy, so twin agreement on arbitrary floats is '
         'tested to 1e-9 only (support), and compared bit-exactly against the model with per-twin arcsine tables',
         'the model mirrors the REPAIRED code: fixes/C20-1 (inward loop tests the sma before each fit), C20-2 '
-        '(zero-gradient exit of the fitter), C20-3 (nearest-neighbour integrator rounds; not modelled, tested)',
+        '(zero-gradient exit of the fitter), C20-4 (a fixed position angle is not rotated when eps changes sign), '
+        'C20-3 (nearest-neighbour integrator rounds) and C20-5 (build_ellipse_model unwraps PA): not modelled, tested',
         'observation (outside the quantifier of the property): fit_image(maxrit=x) without a truthy maxsma never '
         'returns (beyond maxrit nothing is fitted, so nothing fails and the outward loop has no exit); such runs are '
         'cut by a cap on calls / sma and must coincide with the model running out of fuel',
@@ -664,9 +684,9 @@ def run(ctx):
         'non-nearest-neighbour fits end with stop code 0 (observed ~ 90-99 %); an empty result counts as 8 failures',
         'build_ellipse_model reproduces the image inside the fitted region: spline numerics, tested only '
         '(support:model_image; median relative residual <= 3 %, 90th percentile <= 10 %)',
-        'fixed PA is honoured only while the ellipticity corrector never produces eps < 0 '
-        '(fixed_params_kept_partial; _check_conditions rotates PA by pi/2 then); on real fits every fix_* request '
-        'is compared exactly with the returned isophotes',
+        'fixed parameters: proved of the fitter model for the whole iteration (fixed_params_kept; fixed eps for a '
+        'start eps > 0); fix_geometry / non-iterative paths are tested only: on real fits every fix_* request is '
+        'compared exactly with every returned isophote',
         'sma_schedule: partial correctness (returns) and outcome-stream premise invalid => code 3',
         '_fix_last_isophote geometry source (previous isophote outwards, first isophote inwards): tested on real '
         'fits only',
